@@ -7,7 +7,7 @@ namespace vf {
 struct Violation { int prop; uint32_t ev; std::string msg; };
 
 // does the class of state `s` define callback `m`? (the root head, when present, defines all of them; a headless root none)
-inline bool defines(const Info& f, uint8_t s, uint8_t m) { if (s == NOID) return f.head != 0; return s < 64 && ((f.defMask[s] >> m) & 1); }
+inline bool defines(const Info& f, uint8_t s, uint8_t m) { if (s == NOID) return f.head != 0; return s < MASK_BITS && ((f.defMask[s] >> m) & 1); }
 
 // class flags measured on every executed case (what the case actually exercised)
 enum ClassBit : uint64_t {
